@@ -9,7 +9,8 @@ LEVEL = ("Whole decision procedure of the version gate, structurally: the compar
          "check_version_compatibility, its position in parse_data (argument = the *current* envelope's versions; "
          "dominates both inner-data decodes), the empty-slice branch of try_to_envelope, the value of the minimal "
          "version constant, and the error exit returning previous data (shared with C02). Version ordering itself is "
-         "semver's Ord (trusted).")
+         "semver's Ord (trusted)."
+         " Added: the compared operands are whole semver::Version values compared by semver's ordering.")
 
 
 def semver_tuple(s):
